@@ -364,17 +364,23 @@ def drainHelper (s : St) : St × SendRes :=
     | .pending => (s, .park)
     | .cancelled => (s, .raised .cancelled)   -- awaiting an already cancelled future
 
+/-- `_write_websocket_frame`: the frame goes to the transport, `_output_size` grows -/
+def writeFrame (s : St) (fr : Frame) (n : Nat) : St :=
+  { s with frames := s.frames ++ [fr], outSize := s.outSize + frameSize s.cfg n,
+           -- finding F17's repair (`cfg.fixed`): `_closing` is set as soon as the CLOSE frame is written
+           wClosing := s.wClosing || (s.cfg.fixed && fr.isClose) }
+
+/-- the tail of `send_frame`: `if self._output_size > self._limit: …; if protocol._paused: await _drain_helper()` -/
+def flowControl (s : St) : St × SendRes :=
+  if s.outSize > s.cfg.limit then
+    if s.paused then drainHelper { s with outSize := 0 } else ({ s with outSize := 0 }, .ok)
+  else (s, .ok)
+
 /-- `WebSocketWriter.send_frame(payload of n bytes, opcode)` up to its first await -/
 def sendFrame (s : St) (fr : Frame) (n : Nat) : St × SendRes :=
   if s.wClosing && !fr.passesClosing then (s, .raised .reset)
   else if s.trClosing then (s, .raised .reset)
-  else
-    let s := { s with frames := s.frames ++ [fr], outSize := s.outSize + frameSize s.cfg n }
-    let s := if s.cfg.fixed && fr.isClose then { s with wClosing := true } else s
-    if s.outSize > s.cfg.limit then
-      let s := { s with outSize := 0 }
-      if s.paused then drainHelper s else (s, .ok)
-    else (s, .ok)
+  else flowControl (writeFrame s fr n)
 
 /-! ## task bookkeeping -/
 
@@ -603,6 +609,13 @@ def recvGot (s : St) (t : Tid) (r : Except Exc Msg) : St × Bool :=
   | .ok .pong =>
     if s.cfg.autoping then (s, true) else (finish s t (.recv (.msg .pong)), false)
 
+/-- `self._waiting = True` and, with a receive timeout, entering `async_timeout.timeout(receive_timeout)` -/
+def recvBegin (s : St) (t : Tid) : St :=
+  let s := { s with waiting := true }
+  match s.cfg.recvTimeout with
+  | some d => if d = 0 then s else armTmo s t d
+  | none => s
+
 /-- `receive()` from the top of its `while True` (fuel = number of buffered messages it may skip) -/
 def recvLoop (s : St) (t : Tid) : Nat → St
   | 0 => finish s t (.raised .runtime)   -- unreachable: fuel = buffer length + 2
@@ -620,19 +633,13 @@ def recvLoop (s : St) (t : Tid) : Nat → St
       | .server => finish s t (.recv (.msg .closing))
       | .client => recvNestedClose s t Gen.C13.codeOk true .closed
     else
-      let s := { s with waiting := true }
-      let s := match s.cfg.recvTimeout with
-        | some d => if d = 0 then s else armTmo s t d
-        | none => s
+      let s := recvBegin s t
       if s.buf.isEmpty && !s.eof then
-        if s.rwaiter.isSome then
-          let s := (exitTmo s t none).1
-          recvExc (recvFinally s) t .assertion
+        if s.rwaiter.isSome then recvExc (recvFinally (exitTmo s t none).1) t .assertion
         else park { s with rwaiter := some t } t .recvRead
       else
         let rb := readFromBuffer s
-        let s := (exitTmo rb.1 t none).1
-        let g := recvGot (recvFinally s) t rb.2
+        let g := recvGot (recvFinally (exitTmo rb.1 t none).1) t rb.2
         if g.2 then recvLoop g.1 t fuel else g.1
 
 def recvFuel (s : St) : Nat := s.buf.length + 2
@@ -654,19 +661,28 @@ def sendStart (s : St) (t : Tid) (fr : Frame) (n : Nat) : St :=
   | .raised e => finish r.1 t (.raised e)
   | .park => park r.1 t .sendDrain
 
-/-- resume of a task parked in `reader.read()` inside receive() -/
-def resumeRecvRead (s : St) (t : Tid) (rv : Option Exc) : St :=
-  -- `read()`: `except (CancelledError, TimeoutError): self._waiter = None; raise`
+/-- `read()` resumes after `await self._waiter`: `except (CancelledError, TimeoutError): self._waiter = None; raise`,
+otherwise `return self._read_from_buffer()` -/
+def resumeReadValue (s : St) (rv : Option Exc) : St × Except Exc Msg :=
   let s := if rv = some .cancelled then { s with rwaiter := none } else s
-  let rb : St × Except Exc Msg := match rv with
-    | some e => (s, .error e)
-    | none => readFromBuffer s
-  let x := exitTmo rb.1 t (match rb.2 with | .error e => some e | .ok _ => none)
-  let r : Except Exc Msg := match rb.2 with
+  match rv with
+  | some e => (s, .error e)
+  | none => readFromBuffer s
+
+/-- receive() after `reader.read()` produced `r`: leave the timeout block, run the `finally`, then the
+rest of the loop body -/
+def recvAfterRead (s : St) (t : Tid) (r : Except Exc Msg) : St :=
+  let x := exitTmo s t (match r with | .error e => some e | .ok _ => none)
+  let r' : Except Exc Msg := match r with
     | .error e => .error (x.2.getD e)
     | .ok m => .ok m
-  let g := recvGot (recvFinally x.1) t r
+  let g := recvGot (recvFinally x.1) t r'
   if g.2 then recvLoop g.1 t (recvFuel g.1) else g.1
+
+/-- resume of a task parked in `reader.read()` inside receive() -/
+def resumeRecvRead (s : St) (t : Tid) (rv : Option Exc) : St :=
+  let rb := resumeReadValue s rv
+  recvAfterRead rb.1 t rb.2
 
 /-- resume of a task parked in `reader.read()` inside close() -/
 def resumeCloseRead (s : St) (t : Tid) (rv : Option Exc) : St :=
@@ -746,6 +762,13 @@ def pingTaskDone (s : St) (o : Option Outcome) : St :=
     | _ => s
   { s with pingTask := none }
 
+/-- `_send_heartbeat()` once it decides to ping: arm the pong timer, create the (eager) ping task -/
+def hbBegin (s : St) (hb : Nat) : St :=
+  let s := cancelPong s
+  let s := { s with pongCb := true, timers := insertTimer (calcWhen s.now (hb / 2)) .pongTimeout s.timers }
+  -- `asyncio.Task(send_frame(b"", PING), eager_start=True)`
+  { s with tasks := s.tasks ++ [{ op := .hbPing, pc := .start }] }
+
 /-- `_send_heartbeat()` -/
 def sendHeartbeat (s : St) : St :=
   let s := { s with hbCb := false }
@@ -755,12 +778,8 @@ def sendHeartbeat (s : St) : St :=
     match s.cfg.heartbeat with
     | none => s
     | some hb =>
-      let s := cancelPong s
-      let s := { s with pongCb := true, timers := insertTimer (calcWhen s.now (hb / 2)) .pongTimeout s.timers }
-      -- `asyncio.Task(send_frame(b"", PING), eager_start=True)`
       let p := s.tasks.length
-      let s := { s with tasks := s.tasks ++ [{ op := .hbPing, pc := .start }] }
-      let r := sendFrame s .ping 0
+      let r := sendFrame (hbBegin s hb) .ping 0
       match r.2 with
       | .park => { park r.1 p .sendDrain with pingTask := some p }
       | .ok =>
